@@ -29,7 +29,7 @@ LEVEL_NOTE = (
     "integers and divisions are by powers of two, so comparisons are exact up to 1e-12. Bounds: block grids 2x2 / 3x3, "
     "blocks <= 2x2, 1-2 infinite dimensions, orders <= 3."
 )
-TECHNIQUE = "property-based testing over generated programs (Hypothesis) against a reference interpreter; flag-variant differential for the shipped algorithms"
+TECHNIQUE = "property-based testing over generated programs (Hypothesis) against a reference interpreter; flag-variant differential for the shipped algorithms + coverage-guided fuzzing stage (atheris/libFuzzer driving the same strategy and oracle)"
 BUDGET = {"quick": 4000, "thorough": 100000}
 FUZZ = {"quick": 3200, "thorough": 120000}  # executions of the coverage-guided stage (vlib/fuzz.py)
 SHRINK_SECONDS = {"quick": 30, "thorough": 150}
